@@ -18,6 +18,13 @@ hide another (a machine stops at its first failure):
 * ``project_runs``   optimise / import_data / generate_* / reopen + exact-run lookups   (clauses ``runs.*``, ``flags.*``)
 * ``project_latest`` lookups by the bare result name                                   (clauses ``latest.*``)
 * ``project_latest_spec`` latest lookups whose argument carries a run specifier         (clauses ``latest_spec.*``)
+
+handles: the statement is about the project *folder* ("every Project.optimize run ...", "the most recent run"), not
+about one Python object.  Every history may therefore hold up to three live ``Project`` handles on the same folder
+(``handle`` step / ``via`` field of a step: e.g. two notebooks on one project) and use them alternately; the model is
+one run-number table for the folder.  After every stored run all live handles are asked (listing, path lookups).
+A failure that involves a run stored through *another* handle than the one used is bucketed under ``handles.*``.
+``handles_enum_*`` enumerate every short sequence of optimize(name) via handle 0 / 1, both opened before the first run.
 """
 
 from __future__ import annotations
@@ -292,6 +299,7 @@ def prop_matrix(case):
 # project machines
 
 RESULT_NAMES = ["m", "m1", "m_run_x", "m_run_1", "mm"]
+MAX_HANDLES = 3  # live Project objects on one project folder
 DATASETS = ["dataset_1", "d2"]
 FIT_GENERATOR = ["decay_parallel", {"nr_compartments": 1, "irf": False}]
 AUX_GENERATORS = [
@@ -322,7 +330,11 @@ class ProjectHistory:
         self.tmp = Path(tempfile.mkdtemp(prefix="verif_c18p_")).resolve()
         os.chdir(self.tmp)
         self.folder = self.tmp / "proj"
-        self.project = None
+        self.handles: list = []  # live Project objects on the same folder
+        self.serials: list = []  # identity of the object in handles[i] (a reopen replaces the object)
+        self.next_serial = 0
+        self.active = 0  # index of the handle the steps go through
+        self.writer: dict = {}  # result name -> serial of the handle that stored its latest run
         self.counts: dict = {}  # result name -> number of runs stored so far (= next run number)
         self.order: list = []  # existing run folder names in creation order
         self.hashes: dict = {}  # run folder name -> {file: sha256}
@@ -335,6 +347,46 @@ class ProjectHistory:
     def close(self):
         os.chdir(self.cwd)
         shutil.rmtree(self.tmp, ignore_errors=True)
+
+    # -- handles
+    @property
+    def project(self):
+        return self.handles[self.active] if self.handles else None
+
+    @project.setter
+    def project(self, proj):
+        """(Re)place the object of the active handle."""
+        if self.handles:
+            self.handles[self.active] = proj
+            self.serials[self.active] = self.next_serial
+        else:
+            self.handles.append(proj)
+            self.serials.append(self.next_serial)
+        self.next_serial += 1
+
+    def other_handle_wrote(self, name: str, index: int | None = None) -> bool:
+        """The latest run of ``name`` was stored through another object than handle ``index`` (default: the active one)."""
+        w = self.writer.get(name)
+        return w is not None and w != self.serials[self.active if index is None else index]
+
+    def _handle(self, step):
+        """Make handle ``index`` the active one; index == number of live handles opens a further one on the same folder."""
+        from glotaran.project import Project
+
+        index = min(step["index"], len(self.handles), MAX_HANDLES - 1)
+        if index == len(self.handles):
+            before = snapshot(self.folder, mtime=False)
+            with quiet(), expect_ok("handles.open"):
+                proj = Project.open(self.folder / "project.gta" if step.get("how") == "open_file" else self.folder)
+            after = snapshot(self.folder, mtime=False)
+            check(after == before, "handles.open_unchanged", lambda: f"opening a further handle: {snap_diff(before, after)}")
+            self.handles.append(proj)
+            self.serials.append(self.next_serial)
+            self.next_serial += 1
+            self.tags.add("handles:further-handle-opened")
+        if index != self.active:
+            self.tags.add("handles:switched")
+        self.active = index
 
     # -- helpers
     @property
@@ -354,6 +406,13 @@ class ProjectHistory:
     def check_runs_intact(self, clause_prefix="runs"):
         """project.results = all run folders; earlier runs byte-identical."""
         exp = self.expected_runs()
+        for i, proj in enumerate(self.handles):  # every live handle sees all run folders of the project
+            if i == self.active:
+                continue
+            with quiet(), expect_ok("handles.results_listing"):
+                other = sorted(n for n in dict(proj.results) if n not in self.crashed)
+            check(other == exp, "handles.results_listing",
+                  lambda: f"project.results of handle {i} (active: {self.active}) = {other}, expected {exp}")
         with quiet(), expect_ok(f"{clause_prefix}.results_listing"):
             res = dict(self.project.results)
         listed = sorted(n for n in res if n not in self.crashed)  # a folder left by a failed save may or may not be listed
@@ -372,6 +431,8 @@ class ProjectHistory:
     # -- steps
     def apply(self, step: dict):
         op = step["op"]
+        if step.get("via") is not None and op != "handle":
+            self._handle({"index": step["via"], "how": "open_folder"})
         getattr(self, "_" + op)(step)
         if self.project is not None:
             self.check_runs_intact()
@@ -392,6 +453,11 @@ class ProjectHistory:
         k = self.counts.get(name, 0)
         expected = f"{name}_run_{k:04}"
         before = self.listing()
+        # the previous run of this name came from another handle: a failure now is about state kept in the object
+        stale = self.other_handle_wrote(name)
+        via = f" via handle {self.active} of {len(self.handles)} (latest run of that name stored via another handle)" if stale else ""
+        if stale:
+            self.tags.add("handles:run-after-run-of-other-handle")
         err = None
         try:
             with quiet():
@@ -402,16 +468,17 @@ class ProjectHistory:
         if err is not None:
             from vlib.core import innermost_repo_frame
 
-            msg = f"optimize(result_name={name!r}) with runs {self.order}: {type(err).__name__}: {str(err)[:200]} @ {innermost_repo_frame(err)}"
+            msg = f"optimize(result_name={name!r}){via} with runs {self.order}: {type(err).__name__}: {str(err)[:200]} @ {innermost_repo_frame(err)}"
             if self.focus == "runs" or after != before:
-                raise Violation("runs.optimize_ok", msg) from err
+                raise Violation("handles.optimize_after_other_handle" if stale else "runs.optimize_ok", msg) from err
             # other focuses: the failed run is the business of project_runs; nothing was stored, go on
             self.failed_optimize += 1
             self.tags.add("optimize-failed-ignored-in-this-focus")
             return
-        check(after == sorted(before + [expected]), "runs.fresh_run_number",
-              lambda: f"optimize(result_name={name!r}) with runs {self.order}: results folder went {before} -> {after}, expected new folder {expected}")
+        check(after == sorted(before + [expected]), "handles.fresh_run_number" if stale else "runs.fresh_run_number",
+              lambda: f"optimize(result_name={name!r}){via} with runs {self.order}: results folder went {before} -> {after}, expected new folder {expected}")
         self.counts[name] = k + 1
+        self.writer[name] = self.serials[self.active]
         self.order.append(expected)
         self.hashes[expected] = run_dir_hashes(self.results_dir / expected)
         check("result.yml" in self.hashes[expected], "runs.fresh_run_number", lambda: f"{expected} has no result.yml")
@@ -435,26 +502,42 @@ class ProjectHistory:
         if (self.results_dir / expected).exists():
             self.crashed[expected] = run_dir_hashes(self.results_dir / expected)
             self.counts[name] = k + 1  # the number is used: "fresh, strictly increasing run number"
+            self.writer[name] = self.serials[self.active]
             self.tags.add("crash:partial-run-folder-left")
 
     def sweep(self, name):
-        """Deterministic lookups after every stored run (the random ``lookup`` rule adds more)."""
+        """Deterministic lookups after every stored run (the random ``lookup`` rule adds more).
+
+        The path lookups are repeated through every other live handle: what is stored belongs to the folder.
+        """
+        self._sweep(name, None)
+        for i in range(len(self.handles)):
+            if i != self.active:
+                self._sweep(name, i)
+
+    def _sweep(self, name, handle):
+        def look(step):
+            if handle is None:
+                self._lookup(step)
+            elif not step["fn"].startswith("load"):
+                self._lookup({**step, "handle": handle})
+
         if self.focus == "runs":
             for run in self.order:  # every stored run is addressable by its exact name
                 base, k = run.rsplit("_run_", 1)
-                self._lookup({"fn": "get_result_path", "name": base, "spec": 0, "run": int(k)})
+                look({"fn": "get_result_path", "name": base, "spec": 0, "run": int(k)})
         elif self.focus == "latest":
             for n in RESULT_NAMES:
                 for fn in ("get_result_path", "get_result_path_latest", "get_latest_result_path"):
-                    self._lookup({"fn": fn, "name": n, "spec": None})
+                    look({"fn": fn, "name": n, "spec": None})
             for fn in ("load_result_latest", "load_latest_result"):
-                self._lookup({"fn": fn, "name": name, "spec": None})
+                look({"fn": fn, "name": name, "spec": None})
         else:
             for n in RESULT_NAMES:
                 c = len(self.alive(n))
                 for k in sorted({0, c - 1}) if c else ():
-                    self._lookup({"fn": "get_latest_result_path", "name": n, "spec": k})
-            self._lookup({"fn": "load_latest_result", "name": name, "spec": 0})
+                    look({"fn": "get_latest_result_path", "name": n, "spec": k})
+            look({"fn": "load_latest_result", "name": name, "spec": 0})
 
     def _delete_old_run(self, step):
         """The user removes an old (never the latest) run folder of a name: numbering must go on from the maximum."""
@@ -586,7 +669,8 @@ class ProjectHistory:
     def _lookup(self, step):
         fn, name, spec = step["fn"], step["name"], step.get("spec")
         count = self.counts.get(name, 0)
-        p = self.project
+        hidx = step.get("handle", self.active)  # sweeps ask the other live handles too
+        p = self.handles[hidx]
         if fn == "results":
             return  # check_runs_intact does it after every step
         focus = self.focus
@@ -611,6 +695,11 @@ class ProjectHistory:
             expected = last
         clause = {"runs": "runs.earlier_loadable", "latest": "latest.resolves", "latest_spec": "latest_spec.resolves"}[focus]
         desc = f"{fn}({arg!r}) with runs {self.order}"
+        if self.other_handle_wrote(name, hidx):
+            # the handle asked is not the one that stored the latest run of that name: a wrong answer is about state kept in the object
+            clause = "handles.lookup_after_other_handle"
+            desc += f" via handle {hidx} of {len(self.handles)} (latest run of that name stored via another handle)"
+            self.tags.add("handles:lookup-after-run-of-other-handle")
         calls = {
             "get_result_path": lambda: p.get_result_path(arg),
             "get_result_path_latest": lambda: p.get_result_path(arg, latest=True),
@@ -683,10 +772,20 @@ def _machine(focus: str):
             self.h = ProjectHistory(focus)
             self._step({"op": "init"})
 
+        def _via(self, via):
+            """Handle a step goes through: None = the active one; an index opens that handle if it is the next free one."""
+            return None if via is None else min(via, len(self.h.handles), MAX_HANDLES - 1)
+
         @precondition(lambda self: self.h is not None)
-        @rule(name=st.sampled_from(RESULT_NAMES))
-        def optimize(self, name):
-            self._step({"op": "optimize", "name": name})
+        @rule(index=st.integers(0, MAX_HANDLES - 1), how=st.sampled_from(["open_folder", "open_file"]))
+        def handle(self, index, how):
+            """Switch to another live Project handle on the same folder / open a further one."""
+            self._step({"op": "handle", "index": self._via(index), "how": how})
+
+        @precondition(lambda self: self.h is not None)
+        @rule(name=st.sampled_from(RESULT_NAMES), via=st.sampled_from([None, None, 0, 1, 2]))
+        def optimize(self, name, via):
+            self._step({"op": "optimize", "name": name, "via": self._via(via)})
 
         @precondition(lambda self: self.h is not None and self.h.focus == "runs")
         @rule(name=st.sampled_from(["m", "m_run_x"]))
@@ -694,9 +793,9 @@ def _machine(focus: str):
             self._step({"op": "optimize_crash", "name": name})
 
         @precondition(lambda self: self.h is not None)
-        @rule(name=st.sampled_from(["m", "m_run_x", "m_run_1"]))
-        def optimize_more(self, name):
-            self._step({"op": "optimize", "name": name})
+        @rule(name=st.sampled_from(["m", "m_run_x", "m_run_1"]), via=st.sampled_from([None, 0, 1]))
+        def optimize_more(self, name, via):
+            self._step({"op": "optimize", "name": name, "via": self._via(via)})
 
         @precondition(lambda self: self.h is not None and bool(self.h.order))
         @rule(lk=st.sampled_from(lookups), name=st.sampled_from(RESULT_NAMES), spec=st.integers(0, 7))
@@ -794,13 +893,36 @@ def runs_enum_cases(tier: str, part: int | None = None) -> list:
             if part is None or seq[0] % 3 == part]
 
 
+HANDLE_ENUM_OPS = {
+    "quick": [{"op": "optimize", "name": "m", "via": 0}, {"op": "optimize", "name": "m", "via": 1},
+              {"op": "optimize", "name": "m_run_x", "via": 0}, {"op": "optimize", "name": "m_run_x", "via": 1}],
+    "thorough": [{"op": "optimize", "name": "m", "via": 0}, {"op": "optimize", "name": "m", "via": 1},
+                 {"op": "optimize", "name": "m_run_x", "via": 0}, {"op": "optimize", "name": "m_run_x", "via": 1},
+                 {"op": "optimize", "name": "m", "via": 2}, {"op": "delete_old_run", "name": "m", "index": 0, "via": 1},
+                 {"op": "reopen", "how": "open_folder", "via": 0}],
+}
+HANDLE_ENUM_LEN = {"quick": 3, "thorough": 4}
+# all handles exist before the first run is stored (the machines also open handles later)
+HANDLE_ENUM_PRELUDE = [{"op": "init"}, {"op": "handle", "index": 1, "how": "open_folder"}, {"op": "handle", "index": 2, "how": "open_file"},
+                       {"op": "handle", "index": 0}]
+
+
+def handles_enum_cases(tier: str, focus: str) -> list:
+    """All sequences of optimize(name) via handle i over two names x two (thorough: three) handles opened up front."""
+    import itertools
+
+    ops = HANDLE_ENUM_OPS[tier]
+    return [{"focus": focus, "steps": HANDLE_ENUM_PRELUDE + [ops[i] for i in seq]}
+            for seq in itertools.product(range(len(ops)), repeat=HANDLE_ENUM_LEN[tier])]
+
+
 def prop_runs_enum(case):
     h = ProjectHistory(case.get("focus", "runs"))
     try:
         for step in case["steps"]:
             h.apply(step)
         h.finish()
-        return {"nontrivial": h.nontrivial(), "tags": sorted(h.tags) + [f"runs={len(h.order)}"]}
+        return {"nontrivial": h.nontrivial() or "handles:run-after-run-of-other-handle" in h.tags, "tags": sorted(h.tags) + [f"runs={len(h.order)}"]}
     finally:
         h.close()
 
@@ -830,8 +952,10 @@ PROPERTY = Property(
         "allow_overwrite x explicit/inferred format; non-trivial = target present. project_*: Hypothesis state machines over a real "
         "Project in a temp dir (tiny seeded decay fits, 1 function evaluation) with result names m, m1, m_run_x, m_run_1, mm "
         "(names ending in _run_dddd are ambiguous by construction and excluded), import_data / generate_model / generate_parameters with "
-        "all flag combinations, Project.open / Project.create on the existing project, and the user deleting an old (never the latest) "
-        "run folder; runs_enum: every sequence of a small alphabet of those operations; non-trivial = history storing runs under >= 2 "
+        "all flag combinations, Project.open / Project.create on the existing project, the user deleting an old (never the latest) "
+        "run folder, and up to three live Project handles on the same folder used alternately (handle step / via field); "
+        "runs_enum / handles_enum: every sequence of a small alphabet of those operations (handles_enum: over two handles opened before "
+        "the first run; there non-trivial = a run stored via one handle after a run of the same name via another); non-trivial = history storing runs under >= 2 "
         "names of which one is a prefix of the other, with >= 2 runs of one name."
     ),
     subs=[
@@ -842,6 +966,14 @@ PROPERTY = Property(
                 doc="every sequence of length 4 (quick; thorough 5) over optimize(m) / optimize(m_run_x) [/ optimize(m_run_1)] / user deletes the "
                     f"oldest run of m: run numbers, listing, earlier runs unchanged and loadable (part {part + 1} of 3 by first operation)")
             for part in range(3)
+        ],
+        *[
+            Sub(f"handles_enum_{focus}", prop=prop_runs_enum, enumerate=lambda tier, focus=focus: handles_enum_cases(tier, focus), exhaustive=True,
+                doc="three Project handles opened on the same folder before the first run; every sequence of length 3 (quick; thorough 4) over "
+                    "optimize(m) / optimize(m_run_x) via handle 0 / 1 [thorough: + optimize(m) via handle 2, user deletes the oldest run of m, "
+                    "handle 0 is reopened]: run numbers continue over the handles, every handle lists and resolves all runs"
+                    + {"runs": " (exact-run lookups)", "latest": " (lookups by bare result name)"}[focus])
+            for focus in ("runs", "latest")
         ],
         Sub("project_runs", machine=lambda: _machine("runs"), replay_steps=_replay("runs"),
             budget={"quick": 128, "thorough": 1600}, steps={"quick": 12, "thorough": 25},
@@ -860,5 +992,7 @@ PROPERTY = Property(
         "get_result_path / load_result with a run specifier name that exact run (their 'latest' flag only mutes a warning)",
         "deleting an old run folder is an environment action; the latest run of a name is never deleted, so 'previous maximum + 1' stays unambiguous",
         "run numbers stay far below the 4-digit limit of the documented run pattern",
+        "several Project objects on one folder are used alternately, never concurrently (one call at a time): the statement's run numbers, "
+        "listing and latest lookups are those of the project folder, so every handle must continue / see the runs stored through the others",
     ],
 )
